@@ -23,7 +23,7 @@ BUDGET = {"quick": (600, 35), "thorough": (100_000, 540)}
 RULE = ("arm parity: documented setting in {POLL_TIMER, SERVICE_URL, SERVICE_SECURE, SERVICE_AUTH_PROVIDER, "
         "IN_APP_INCLUDE, IN_APP_EXCLUDE, APP_ROOT, LOGGING_CONF} x generated value x whole-system scenario (start through "
         "deep.start, registered tracepoint hit from nested calls, 3.5 poll intervals, shutdown) run with the value "
-        "in code and as DEEP_<KEY> text; arm table (seed index 0 of a batch): 10 keys x 3 code forms x 2 environment "
+        "in code and as DEEP_<KEY> text; arm table (seed index 0 of a batch): 10 keys x 7 code forms (value, callable, absent, 0, '', [], False) x 2 environment "
         "states in fresh interpreters (ENUMERATED) and 9 paths x 12 prefix sets for the app-frame rule (ENUMERATED); "
         "non-trivial = a parity pair whose scenario delivered at least one snapshot and three polls, or a table row; "
         "distinct = distinct (key, value) pairs / table rows")
@@ -213,12 +213,20 @@ keys = %(keys)r
 out = {}
 for key in keys:
     row = {}
-    for form in ("value", "callable", "absent"):
+    for form in ("value", "callable", "absent", "zero", "empty", "emptylist", "false"):
         custom = {}
         if form == "value":
             custom[key] = "CODE-" + key
         elif form == "callable":
             custom[key] = (lambda key=key: "CALLED-" + key)
+        elif form == "zero":
+            custom[key] = 0
+        elif form == "empty":
+            custom[key] = ""
+        elif form == "emptylist":
+            custom[key] = []
+        elif form == "false":
+            custom[key] = False
         try:
             v = getattr(ConfigService(custom), key)
             if callable(v):
@@ -252,13 +260,16 @@ def _table(s, ch):
             viol.append(V("table-interpreter-failed", out.stderr[-400:]))
             continue
         for key in keys:
-            for form in ("value", "callable", "absent"):
+            for form in ("value", "callable", "absent", "zero", "empty", "emptylist", "false"):
                 rows += 1
                 got = table[key][form]
                 if form == "value":
                     want = "CODE-" + key
                 elif form == "callable":
                     want = "CALLED-" + key
+                elif form in ("zero", "empty", "emptylist", "false"):
+                    # a value given in code wins, also when it is falsy (only "not given" falls through)
+                    want = {"zero": 0, "empty": "", "emptylist": [], "false": False}[form]
                 elif key in DOC_KEYS:
                     want = ("ENV-" + key) if env_set else DOC_KEYS[key]
                 elif key == "APP_ROOT":
